@@ -282,7 +282,7 @@ pub fn conformant_tag(kind: u32, key: u64, n: usize, sel: u32) -> Vec<u8> {
             put16(&mut body, 4, shndx);
             for e in 0..n {
                 let t = ELF_TYPES[((sel >> 4) as usize + e * 7) % ELF_TYPES.len()];
-                let h = crate::realistic::elf_section_header(es, crate::elfnames::NAME_OFFS[(key as usize + e) % 9], if e == 0 { 0 } else { t }, 6, crate::elfnames::base().unwrap_or(0x10_0000) as u64, 0x40, 0, key, e);
+                let h = crate::realistic::elf_section_header(es, crate::elfnames::NAME_OFFS[(key as usize + e) % crate::elfnames::NAME_OFFS.len()], if e == 0 { 0 } else { t }, 6, crate::elfnames::base().unwrap_or(0x10_0000) as u64, 0x40, 0, key, e);
                 body[8 + e * es..8 + (e + 1) * es].copy_from_slice(&h);
             }
             tag(9, &body)
@@ -313,7 +313,8 @@ pub fn conformant_tag(kind: u32, key: u64, n: usize, sel: u32) -> Vec<u8> {
                 if (sel >> 16) & 1 == 1 {
                     if let Some(b) = crate::elfnames::base() {
                         use crate::elfnames::NAME_OFFS;
-                        put32(&mut body, at, NAME_OFFS[(key as usize + e) % NAME_OFFS.len()]);
+                        let name = if (sel >> 29) & 1 == 1 { crate::elfnames::real_name_off(marker(key, 790 + e) as usize) } else { NAME_OFFS[(key as usize + e) % NAME_OFFS.len()] };
+                        put32(&mut body, at, name);
                         if es == 40 {
                             put32(&mut body, at + 12, b as u32);
                         } else {
